@@ -256,3 +256,29 @@ HEAP_HEADERS["C07"] = ("From CppUVerif Require Import lib.CSem lib.CMem lib.CHea
                        "and yields an opaque non-null text address; constructing the TestFailure that is handed to result.addFailure is the ghost event "
                        "PFailure; outputBuffer_ is one opaque cell and its clear() the event PClearBuffer *)\n"
                        "Inductive pev := PClearBuffer | PReport (period : Z) | PFailure | PWarn.\n")
+
+# ------------------------------------------------------------------ C02 (second file): TestRegistry::runAllTests, the loop that visits every registered test
+_G02R = [["evs", "list rev"], ["shoulds", "list Z"]]
+_C02RC = {"getNext": {"recv_field": ["UtestShell", "next_"]}, "getGroup": {"recv_field": ["UtestShell", "group_"]},
+          "operator!=": "c_ne {0} {1}",            # group texts are compared; a group name is an opaque integer that identifies its text
+          "setRunInSeperateProcess": {"fn": "src_shell_setRunInSeperateProcess", "method": True},
+          "setRunIgnored": {"event": "RSetRunIgnored {r}", "recv": True},                # virtual: only IgnoredUtestShell acts on it
+          "shouldRun": {"pop": "shoulds"},                                                 # the filters' answer for this test (C12 / C02 model)
+          "testShouldRun": {"fn": "src_registry_testShouldRun", "method": True, "args": [0]}, "endOfGroup": {"fn": "src_registry_endOfGroup", "method": True},
+          "testsStarted": {"event": "RTestsStarted"}, "testsEnded": {"event": "RTestsEnded"},
+          "currentGroupStarted": {"event": "RGroupStarted {0}", "args": [0]}, "currentGroupEnded": {"event": "RGroupEnded {0}", "args": [0]},
+          "currentTestStarted": {"event": "RTestStarted {0}", "args": [0]}, "currentTestEnded": {"event": "RTestEnded {0}", "args": [0]},
+          "countTest": {"event": "RCountTest"}, "countFilteredOut": {"event": "RFilteredOut"},
+          "runOneTest": {"event": "RRunOne {r} {0}", "recv": True, "args": [0]}}
+HEAP_RECORDS["C02R"] = HEAP_RECORDS["C02"]
+HEAP_GROUPS["C02R"] = (
+    [dict(file=UTS, name="UtestShell::setRunInSeperateProcess", coq="src_shell_setRunInSeperateProcess", calls=_C02RC, ghosts=_G02R)] +
+    [dict(file=TRG, name="TestRegistry::" + n, coq="src_registry_" + n, calls=_C02RC, ghosts=_G02R) for n in
+     ["testShouldRun", "endOfGroup", "runAllTests"]])
+HEAP_HEADERS["C02R"] = ("From CppUVerif Require Import lib.CSem lib.CMem lib.CHeap.\nLocal Open Scope Z_scope.\n"
+                        "(* translated by tools/cxx2heap.py: TestRegistry::runAllTests with testShouldRun and endOfGroup; every call on the TestResult and the "
+                        "virtual calls on the test are ghost events (rev) carrying the test they are about (runOneTest also the plugin chain handed "
+                        "over); test->shouldRun(filters) takes the next value of the ghost stream shoulds; getNext() / getGroup() read the fields; two group "
+                        "names are compared as opaque integers that identify their text *)\n"
+                        "Inductive rev := RTestsStarted | RTestsEnded | RCountTest | RFilteredOut | RGroupStarted (t : hptr) | RGroupEnded (t : hptr) | "
+                        "RTestStarted (t : hptr) | RTestEnded (t : hptr) | RRunOne (t : hptr) (plugins : Z) | RSetRunIgnored (t : hptr).\n")
